@@ -967,6 +967,7 @@ def np_unique(it, args, kw):
     res = NDArray((K,), 'float', lambda t_: u(t_))
     res.unique_of = (root, vs, u, wit)
     res.strictly_ascending = True
+    run.__dict__.setdefault('np_uniques', []).append(res)
     if not kw.get('return_index', False):
         return res
     g, m = a.fn, a.shape[0]
@@ -1005,6 +1006,7 @@ def rankdata(it, args, kw):
         fact(run, QA(n, dense))
     r = NDArray((n,), 'float', lambda j: rk(j))
     r.ranks_of = (a, vs, policy)
+    run.__dict__.setdefault('np_ranks', []).append(r)
     return r
 
 
@@ -1090,7 +1092,17 @@ E.Interp.assign = _assign
 _orig_symbolic_loop = E.Interp.symbolic_loop
 
 
+ROLE_LOOPS = []      # fn(interp, frame, loop node, iterable) -> LoopSpec | None : loop contracts bound by the ROLE of the loop, wherever it lives
+
+
 def _symbolic_loop(self, fr, s, it):
+    key = self.loop_key(fr, s)
+    if key not in E.LOOPS:
+        for match in ROLE_LOOPS:
+            spec = match(self, fr, s, it)
+            if spec is not None:
+                E.LOOPS[key] = spec          # bound for this run of the checker (the key is the loop's position in the current source)
+                break
     if isinstance(it, M.SymRange) and conc(it.step) == 1:
         lo, hi = zi(it.lo), zi(it.hi)
         n = z3.If(hi > lo, hi - lo, 0) if not implied(self, hi >= lo) else hi - lo
